@@ -447,7 +447,7 @@ impl Scenario for TxHistory {
         ScenarioInfo {
             property: "C04",
             name: "tx-history",
-            rule: "the first run indices enumerate systematically every sequence up to depth 3 (quick) / 4 (thorough) over a 41-operation alphabet (every mutator incl. non-empty bulk adders, every cache-filling flag class, out-of-range SINGLE, sign, hash_inputs, fork, switch-object, restart through wire / JSON / CBOR, replacement by an equal element and by one that differs in the value only) applied to a 2-input/2-output transaction; after that one case = one seeded history of 5-40 public API calls (14 mutators incl. add/prepend/insert/set for inputs and outputs, set_version/set_nlocktime, sighash_preimage / sign / sign_with_k with all 14 flag values, hash_inputs, read-only calls, clone forks, restarts through wire/JSON/CBOR) on 1-4 live Transaction objects; non-trivial = at least one memo slot was filled when a later mutator or restart/fork arrived (a stale window existed) ; distinct = distinct fingerprint of the (object, op-kind, flag/index class, fault-kind) sequence, payload bytes ignored",
+            rule: "the first run indices enumerate systematically every sequence up to depth 3 (quick) / 4 (thorough) over a 41-operation alphabet (every mutator incl. non-empty bulk adders, every cache-filling flag class, out-of-range SINGLE, sign, hash_inputs, fork, switch-object, restart through wire / JSON / CBOR, replacement by an equal element and by one that differs in the value only) applied to a 2-input/2-output transaction; after that one case = one seeded history of 5-40 public API calls (12 mutators: add/prepend/insert/set/bulk-add for inputs and outputs, set_version/set_nlocktime; bursts of one mutator, replacements derived from the replaced element, out-of-range positional calls; sighash_preimage / sign / sign_with_k with all 14 flag values, hash_inputs, read-only calls, clone forks, restarts through wire/JSON/CBOR and through a JSON document with one number edited) on 1-4 live Transaction objects; non-trivial = at least one memo slot was filled when a later mutator or restart/fork arrived (a stale window existed) ; distinct = distinct fingerprint of the (object, op-kind, flag/index class, fault-kind) sequence, payload bytes ignored",
             abstract_state: "(bucket(n_in), bucket(n_out), set of filled memo slots subset of {I,S,O}, last mutator kind, fork depth)",
             real: &["bsv::Transaction (all mutators, sighash_preimage, sign, sign_with_k, verify, hash_inputs, clone, to/from bytes, JSON, CBOR)", "bsv::TxIn", "bsv::TxOut", "bsv::Script::from_bytes", "bsv::PrivateKey", "bsv::SighashSignature"],
             stub: &["model transaction (plain Vec operations) with a 30-line reference serialiser", "history-free oracle object = Transaction::from_bytes(current serialisation)"],
